@@ -89,9 +89,18 @@ partial def valOf : Sexp → Option Val
         | _ => none).map .hash
   | _ => none
 
+def bpOf : Sexp → Option BP
+  | .atom "any" => some .any
+  | .atom "str" => some .str
+  | .atom "int" => some .int
+  | .atom "num" => some .num
+  | .atom "bool" => some .bool
+  | _ => none
+
 def btOf : Sexp → Option BTy
   | .atom "call" => some .any
   | .list [.atom "c", a, b] => do some (.range (← a.nat?) (← boundNat? b))
+  | .list [.atom "ct", .list ps, a, b] => do some (.typed (← ps.mapM bpOf) (← a.nat?) (← boundNat? b))
   | _ => none
 
 def bopOf (env : List (String × Sexp)) : Sexp → Option (BOp Ty BTy)
@@ -124,6 +133,15 @@ def blkOf : Sexp → Option (Option Blk)
       match mx with
       | some m => if m < mn || m > 8 then none else some (some { min := mn, max := mx })
       | none => some (some { min := mn, max := none })
+  | .list [.atom "bt", .list ps, a, b] => do
+      -- a lambda with one parameter per type: the first MIN required, the others optional; MAX = `d`: the last one repeated
+      let ts ← ps.mapM bpOf
+      let mn ← a.nat?
+      let mx ← boundNat? b
+      if ts.length > 8 || mn > ts.length then none
+      match mx with
+      | some m => if m != ts.length then none else some (some { min := mn, max := mx, types := ts })
+      | none => if ts.isEmpty then none else some (some { min := mn, max := none, types := ts })
   | _ => none
 
 partial def valStr : Val → String
